@@ -9,6 +9,7 @@
    MOutOfFuel -> COutOfFuel  (Proofs/MroProofs.v). *)
 From Coq Require Import ZArith NArith List Bool.
 From PydoctorVerif Require Import Base.Sexp Spec.C3 Model.Mro Proofs.MroProofs.
+From PydoctorVerif Require Import Model.MroIR Gen.MroCode Proofs.MroIRProofs.
 Import ListNotations.
 
 (* ---- C3 merge ------------------------------------------------------------------------------------ *)
@@ -149,6 +150,59 @@ Theorem C05_overrides :
     overrides h ns c n = Some (d, o) ->
     lookup (defines_of ns) (d_tail (class_mro h c)) n d /\ contents_get ns d n = Some o.
 Proof. exact overrides_lookup. Qed.
+
+(* ---- the tie to the source: the code translated from the CURRENT pydoctor/mro.py ------------------------------ *)
+(* Gen/MroCode.v is regenerated from /repo on every run by harness/gen/gen_c05_code.py (fail-closed); Model/MroIR.v
+   interprets it.  The interpretation of every translated body IS the hand-written model, for all inputs: an edit of
+   mro.py that changes what it computes breaks one of these obligations. *)
+Theorem C05_code_head_is_model :
+  forall d, head_ir mro_code (of_seq d) = EV (of_head (d_head d)).
+Proof. exact head_ir_eq. Qed.
+
+Theorem C05_code_tail_is_model :
+  forall d, tail_ir mro_code (of_seq d) = EV (of_seq (d_tail d)).
+Proof. exact tail_ir_eq. Qed.
+
+Theorem C05_code_init_is_model :
+  forall ls, newdl_ir mro_code (of_seqs ls) = EV (VDL (of_seqs ls)).
+Proof. exact newdl_ir_eq. Qed.
+
+Theorem C05_code_contains_is_model :
+  forall ls c, contains_ir mro_code (VDL (of_seqs ls)) (VObj c) = EV (VBool (in_tails c ls)).
+Proof. exact contains_ir_eq. Qed.
+
+Theorem C05_code_heads_is_model :
+  forall ls, heads_ir mro_code (VDL (of_seqs ls)) = EV (VList (map of_head (heads ls))).
+Proof. exact heads_ir_eq. Qed.
+
+Theorem C05_code_tails_is_model :
+  forall v, tails_ir mro_code (VDL v) = EV (VDL v).
+Proof. exact tails_ir_eq. Qed.
+
+Theorem C05_code_exhausted_is_model :
+  forall ls, exhausted_ir mro_code (VDL (of_seqs ls)) = EV (VBool (exhausted ls)).
+Proof. exact exhausted_ir_eq. Qed.
+
+Theorem C05_code_remove_is_model :
+  forall ls c, remove_ir mro_code (VDL (of_seqs ls)) (VObj c) = EV (VDL (of_seqs (dl_remove c ls))).
+Proof. exact remove_ir_eq. Qed.
+
+(* _merge: same result list, same ValueError, same (never reached: C05_fuel_merge) out-of-fuel value *)
+Theorem C05_code_merge_is_model :
+  forall ls, merge_ir mro_code (map of_seq ls) = eres_of_mres (merge ls).
+Proof. exact merge_ir_eq. Qed.
+
+(* mro(cls, getbases), for every hierarchy, class and fuel; Some = the interpretation never gets stuck *)
+Theorem C05_code_mro_is_model :
+  forall (h : hier) f c, mro_ir mro_code (getbases h) f c = Some (mro f h c).
+Proof. exact mro_ir_eq. Qed.
+
+(* hence the translated source itself computes CPython's MRO on every acyclic hierarchy *)
+Theorem C05_code_mro_is_python :
+  forall (h : hier) (rank : N -> nat),
+    acyclic h rank -> (forall c b, In b (getbases h c) -> truthy b = true) ->
+    forall f c, option_map as_spec (mro_ir mro_code (getbases h) f c) = Some (cpython_mro f h c).
+Proof. exact code_mro_is_python. Qed.
 
 (* ---- non-vacuity --------------------------------------------------------------------------------- *)
 Local Open Scope N_scope.
